@@ -43,7 +43,7 @@ def cases(tier, seed):
         out.append(dict(t="hist", fmt=fmt, mode=mode, N=N, M=M, layout=R.choice(["disjoint", "disjoint", "common"]),
                         pos=[R.choice([0, 1, 3]), 0, 0], maxdelay=R.choice([0.0, 0.005, 0.02]), seed=R.randrange(1 << 30),
                         prior=R.choice(["none", "none", "file"]), mixfmt=(i % 3 == 0), longhold=(i % 5 == 2), pause_after_release=(i % 4 == 1),
-                        linedelay=(i % 3 == 1)))
+                        linedelay=(i % 3 == 1), mixenv=(i % 4 == 2)))
         if out[-1]["linedelay"] and i % 2:
             out[-1].update(N=R.choice([4, 6, 8]), M=R.choice([1, 1, 2]))  # updaters that finish and exit while others still contend
     for i in range(36 if tier == "quick" else 700):
@@ -173,6 +173,9 @@ def _updater(spec, base, idx, go_path):
 
         filelock.BaseFileLock.release = release
 
+    if spec.get("mixenv") and idx % 2:
+        # the updaters do not share one environment: a batch job and an interactive shell working on the same pyramid
+        os.environ.update(SLURM_JOB_ID="4242", SLURM_NPROCS="8", SLURM_CPUS_ON_NODE="8")
     if spec.get("linedelay"):
         # descheduling between any two statements of toasty's own tile I/O code (not of the lock library)
         sched.install(spec["seed"] + idx, p=0.06, files=("pyramid.py",), lo=0.002, hi=0.25, budget=4.0)
